@@ -76,7 +76,7 @@ func schedBody(w *runner.W) {
 				reported[fp] = true
 				again := vsched.RunOnce(vsched.Options{PreemptionBound: sc.Bound, StepBudget: 50000}, out.Choices, bodyFn)
 				if fp2, _ := judge(again); fp2 != fp {
-					r.Failf("harness:nondeterministic-replay", "schedule %v gave %q then %q", out.Choices, fp, fp2)
+					r.Failf("nondeterministic:uncontrolled", "the same schedule %v gave %q then %q: nondeterminism outside the scheduler's control (data race, map order, time)", out.Choices, fp, fp2)
 					return false
 				}
 				c := sc
